@@ -317,7 +317,7 @@ def layout_check(ctx, keep, stage):
         parts = ans[3:].split()
         if parts[0] != '1':
             unmet += 1
-            ctx.add_broken('hypothesis', 'layout:%s:%s' % (stage, ident), 'okL / textOK does not hold for %r: T02.4 says nothing about it' % src[:300])
+            ctx.add_broken('hypothesis', 'layout:%s:%s' % (stage, ident), 'okL / plainL / textOK does not hold for %r: T02.4 says nothing about it' % src[:300])
             continue
         model = [tuple(int(x) for x in p.split(':')) for p in parts[1:]]
         if not impl.strip() and model == [(0, 0)]:
